@@ -29,7 +29,7 @@ CONSTANTS MaxTok,     \* tokens per chunk
 NT == {"Block", "Stats", "Ret", "RetExps", "Semi", "Stat", "Elifs", "ForRest", "ForStep", "NameList2", "FuncName", "FnRest",
        "FuncBody", "ParList", "ParRest", "AttNames", "Attrib", "AttRest", "LocalInit", "ExpList", "ExpRest", "ExprStat",
        "AfterCall", "AfterIdx", "AssignTail", "LValue", "Lvs", "Lvs1", "CallSuf", "Args", "IdxSuf", "Exp", "UnOps", "BinRest",
-       "SimpleExp", "Sufs", "Primary", "TableCons", "Fields", "Field"}
+       "SimpleExp", "Sufs", "Primary", "TableCons", "Fields", "Field", "FlatFields", "FlatArgs"}
 
 \* productions: each alternative is a sequence of symbols (terminals are token kinds, written in lower case or as punctuation)
 P(nt) ==
@@ -85,6 +85,9 @@ P(nt) ==
     [] nt = "TableCons" -> {<<"{", "Fields", "}">>}
     [] nt = "Fields"    -> {<<>>, <<"Field">>, <<"Field", ",", "Fields">>, <<"Field", ";", "Fields">>}
     [] nt = "Field"     -> {<<"[", "Exp", "]", "=", "Exp">>, <<"name", "=", "Exp">>, <<"Exp">>}
+    \* long flat lists (focus frames only): k = 1, k = 1, ...   and   1, 1, 1, ...
+    [] nt = "FlatFields"-> {<<"name", "=", "number">>, <<"name", "=", "number", ",", "FlatFields">>}
+    [] nt = "FlatArgs"  -> {<<"number">>, <<"number", ",", "FlatArgs">>}
     [] OTHER            -> {}
 
 VARIABLES toks, stack
@@ -96,6 +99,8 @@ StartOf(f) ==
       [] f = "forin"    -> <<"for", "name", "NameList2", "in", "name", "do", "end">>
       [] f = "attnames" -> <<"local", "AttNames", ";">>    \* (closed by ';': with '= nil' a stray name would start a new statement)
       [] f = "funcname" -> <<"function", "FuncName", "(", ")", "end">>
+      [] f = "flatfields" -> <<"local", "name", "=", "{", "FlatFields", "}">>
+      [] f = "flatargs" -> <<"name", "(", "FlatArgs", ")">>
       [] OTHER          -> <<"Block">>
 
 Init == toks = <<>> /\ stack = StartOf(Focus)
@@ -106,7 +111,7 @@ MinLen(sym) ==
                   "AttRest", "LocalInit", "ExpRest", "AfterCall", "Lvs", "UnOps", "BinRest", "Sufs", "Fields"} -> 0
       [] sym \in {"Ret", "Stat", "FuncName", "AttNames", "ExpList", "LValue", "Lvs1", "CallSuf", "Args", "Exp", "SimpleExp", "Primary", "Field"} -> 1
       [] sym \in {"IdxSuf", "ExprStat", "TableCons", "AssignTail"} -> 2
-      [] sym = "FuncBody" -> 3
+      [] sym \in {"FuncBody", "FlatFields"} -> 3
       [] sym = "ForRest" -> 4
       [] OTHER -> 1
 
@@ -136,6 +141,15 @@ Spec == Init /\ [][Next]_vars
 Bounded == Len(toks) <= MaxTok /\ Len(stack) <= MaxStack
 \* MinLen never overestimates on the symbols actually reached: a finished chunk is within the bound
 Complete == stack = <<>>
+
+\* every complete chunk has balanced brackets (never more closers than openers in a prefix, none left open): so a text
+\* whose brackets do not balance -- e.g. a valid chunk with one opening bracket deleted -- is not a chunk
+Openers == {"(", "{", "["}
+Closers == {")", "}", "]"}
+RECURSIVE Depths(_, _)
+Depths(ts, d) == IF ts = <<>> THEN <<d>>
+                 ELSE <<d>> \o Depths(Tail(ts), d + (IF Head(ts) \in Openers THEN 1 ELSE IF Head(ts) \in Closers THEN -1 ELSE 0))
+Balanced == Complete => LET ds == Depths(toks, 0) IN (\A i \in 1..Len(ds) : ds[i] >= 0) /\ ds[Len(ds)] = 0
 
 Emit == IF Complete THEN PrintT("@@J " \o ToJson([fam |-> "grammar", toks |-> toks])) ELSE TRUE
 =============================================================================
